@@ -7,9 +7,9 @@ export GOFLAGS=-mod=mod GOPROXY=off GOSUMDB=off GOTOOLCHAIN=local
 [ -d $WT ] || git -C /repo worktree add -q --detach $WT HEAD
 cd $WT && git checkout -q -- . && git clean -fdq
 git apply --check $S/patch.diff || { echo "PATCH DOES NOT APPLY"; exit 2; }
-DEST=$(head -1 $S/demo_test.go | sed -n 's,^// place in: *,,p' | tr -d '\r')
+DEST=$(head -1 $S/demo_test.go | sed -n 's,^// place in: *,,p' | tr -d '\r' | awk '{print $1}')
 [ -n "$DEST" ] || { echo "no demo destination"; exit 2; }
-cp $S/demo_test.go $WT/$DEST/zz_seed_demo_test.go
+mkdir -p $WT/$DEST; cp $S/demo_test.go $WT/$DEST/zz_seed_demo_test.go
 DEMO=$(grep -o 'func Test[A-Za-z0-9_]*' $S/demo_test.go | sed 's/func //' | paste -sd'|')
 moddir=$WT; case "$DEST" in libs/*) moddir=$WT/libs; DESTREL=${DEST#libs/};; *) DESTREL=$DEST;; esac
 echo "== demo WITHOUT change"; (cd $moddir && go test -count=1 -run "^($DEMO)\$" ./$DESTREL 2>&1 | tail -3)
